@@ -412,6 +412,10 @@ pub struct IrqOpts {
     pub isr_work: bool,
     /// set the enable bit with a plain store instead of `BITS (0xF9),1` (which reads the status register)
     pub enable_by_store: bool,
+    /// main program contains windows in which the key-edge enable bit is cleared by a plain store to
+    /// 0xF9 and set again a few instructions later (a press latched before the clearing store takes
+    /// effect must still be served; a press inside the window must not)
+    pub mask_windows: bool,
 }
 
 pub const IRQ_COUNTER: u8 = 0xCF;
@@ -582,6 +586,15 @@ pub fn hazard_program(rng: &mut Rng, o: HazardOpts) -> Vec<u8> {
                 if o.wild && o.irq.is_none() {
                     p.ldsp(Src::Imm(0xE0 + rng.below(16) as u8));
                     depth = 0;
+                } else if o.irq.map(|i| i.mask_windows).unwrap_or(false) {
+                    // mask window: MOV (0xF9),#v with bit 0 clear ... MOV (0xF9),#w with bit 0 set
+                    let v0 = if rng.bool() { 0 } else { rng.u8() & 0x3E };
+                    p.mov(Dst::Abs(0xF9), Src::Imm(v0));
+                    for _ in 0..rng.below(4) {
+                        p.un(*rng.pick(&[0x44u8, 0x50, 0x30, 0x38]), rng.below(3) as u8);
+                    }
+                    let v1 = if rng.bool() { 1 } else { 1 | (rng.u8() & 0x3E) };
+                    p.mov(Dst::Abs(0xF9), Src::Imm(v1));
                 } else {
                     p.nop();
                 }
